@@ -47,7 +47,10 @@ def st_history():
                      st.sampled_from(['direct', 'queued'])).map(list)
     # burst: n queued calls in a row - more than the worker queue (10) holds when nothing drains it in between
     burst = st.tuples(st.just('burst'), st.integers(0, 1), st.integers(0, 20), st.integers(9, 12)).map(list)
-    step = st.one_of(call, call, call, call, call, call, st.just(['drain']), st.just(['drain']),
+    # the worker finds its queue empty for a second (it then checks the invocation time-outs; the application's time-out
+    # handler may raise) before it goes on with what is queued
+    idle = st.tuples(st.just('idle'), st.sampled_from(['ok', 'raise', 'raise'])).map(list)
+    step = st.one_of(call, call, call, call, call, call, st.just(['drain']), st.just(['drain']), idle,
                      st.tuples(st.just('call_unknown'), st.integers(0, 1)).map(list),
                      st.tuples(st.just('call_unknown'), st.integers(0, 1)).map(list), burst,
                      # the application withdraws an operation (its descriptor stays in the MDIB)
@@ -118,6 +121,10 @@ class E2E:
         return client.set_context_state(handle, [proposed])
 
     def step(self, step):
+        if step[0] == 'idle':
+            self.idle_then_drain(step[1])
+            self.pending = 0
+            return
         if step[0] == 'drain':
             self.world.run_sco()
             self.pending = 0
@@ -203,6 +210,28 @@ class E2E:
         expect = 'Fail' if behaviour in ('Fail', 'raise', 'raise_bare') else behaviour
         self.calls.append({'tx': resp[0], 'consumer': ci % len(self.consumers), 'expect': expect, 'mode': mode,
                            'behaviour': behaviour, 'future': fut, 'response_state': resp[1], 'kind': kind, 'step': step})
+
+    def idle_then_drain(self, mode):
+        """One idle second of the worker (time-out check; with mode 'raise' the check of one operation raises, as a
+        failing application time-out handler would), then everything queued is processed.  The worker loop survives."""
+        victim = self.ops[0][2]
+        if mode == 'raise':
+            def failing_check():
+                raise RuntimeError('vf: the time-out handler of the application failed')
+            victim.check_timeout = failing_check
+        try:
+            self.world.run_sco(idle_first=True)
+        except Exception as ex:  # noqa: BLE001
+            if not (R.exc_in_library(ex) or isinstance(ex, RuntimeError)):
+                raise
+            self.findings.append((f'{P}/worker-loop-dies/{type(ex).__name__}',
+                                  f'an exception during the idle time-out check ended the operations worker: {ex}'[:200]))
+        finally:
+            victim.__dict__.pop('check_timeout', None)
+            for reg in self.world.provider._sco_operations_registries.values():  # noqa: SLF001
+                q = reg._worker._operations_queue if reg._worker is not None else None  # noqa: SLF001
+                if q is not None:
+                    q.__dict__.pop('get', None)
 
     def reports_by_consumer(self):
         """{consumer netloc: [(tx, state, error, message)] in delivery order}"""
